@@ -1117,6 +1117,11 @@ class NDArraySerializerBase(
         subres = NDArraySerializerBase._get_dtype_and_subarray_shape(dtype.subdtype[0])
         return (subres[0], dtype.subdtype[1] + subres[1])
 
+    def _packed_dtype(self) -> np.dtype[Any]:
+        if self._array_dtype.fields is None:
+            return self._array_dtype
+        return recfunctions.repack_fields(self._array_dtype, align=False, recurse=True)  # type: ignore
+
     def _write_data(self, stream: CodedOutputStream, value: npt.NDArray[Any]) -> None:
         if value.dtype != self._array_dtype:
             # see if it's the same dtype but packed, not aligned
@@ -1130,6 +1135,11 @@ class NDArraySerializerBase(
                 raise ValueError(message)
 
         if self._is_current_array_trivially_serializable(value):
+            if value.dtype.itemsize != self._packed_dtype().itemsize:
+                # the aligned in-memory layout has padding between fields; the format does not
+                value = np.ascontiguousarray(
+                    recfunctions.repack_fields(value, align=False, recurse=True)  # type: ignore
+                )
             stream.write_bytes_directly(value.data)
         else:
             for element in value.flat:
@@ -1141,9 +1151,14 @@ class NDArraySerializerBase(
         flat_length = int(np.prod(shape))  # type: ignore
 
         if self.element_serializer.is_trivially_serializable():
-            flat_byte_length = flat_length * self._array_dtype.itemsize
+            # records are written without padding between fields
+            packed_dtype = self._packed_dtype()
+            flat_byte_length = flat_length * packed_dtype.itemsize
             byte_array = stream.read_bytearray(flat_byte_length)
-            return np.frombuffer(byte_array, dtype=self._array_dtype).reshape(shape)
+            result = np.frombuffer(byte_array, dtype=packed_dtype)
+            if packed_dtype.itemsize != self._array_dtype.itemsize:
+                result = result.astype(self._array_dtype)
+            return result.reshape(shape)
 
         result: npt.NDArray[T_NP] = np.ndarray((flat_length,), dtype=self._array_dtype)
         for i in range(flat_length):
